@@ -2,7 +2,7 @@
 From Coq Require Import String.
 From BV Require Import Base.Prelude Base.Codec Hist.Model.
 
-(** args: <nlines> line* then ops: A sid now cmd | S sid | X sid | N | D sid off | C sid | T *)
+(** args: <nlines> line* then ops: A sid now cmd | S sid | X sid | W sid | N | D sid off | C sid | T *)
 Fixpoint take_n {A} (n : nat) (l : list A) : list A * list A :=
   match n, l with
   | O, _ => ([], l)
@@ -16,6 +16,7 @@ Fixpoint dec_ops (fuel : nat) (a : list str) : list op :=
   | [65%N] :: sid :: now :: c :: r => Add (dec_nat sid) c (dec_Z now) :: dec_ops fuel r
   | [83%N] :: sid :: r => Save (dec_nat sid) :: dec_ops fuel r
   | [88%N] :: sid :: r => SaveFail (dec_nat sid) :: dec_ops fuel r
+  | [87%N] :: sid :: r => Write (dec_nat sid) :: dec_ops fuel r
   | [78%N] :: r => NewSession :: dec_ops fuel r
   | [68%N] :: sid :: off :: r => Delete (dec_nat sid) (dec_Z off) :: dec_ops fuel r
   | [67%N] :: sid :: r => Clear (dec_nat sid) :: dec_ops fuel r
